@@ -118,6 +118,8 @@ type wire struct {
 	rtpSeen   int
 	rtcpSeen  int
 	inUnwrap  unwrap
+	keepIn    bool   // record every unit handed to the receiving side (before alteration)
+	inUnits   []unit
 	in        *E2EInput
 	rng       *rand.Rand
 	recvSide  string // which side receives the media under test: server | client
@@ -143,6 +145,9 @@ func (w *wire) incoming(side string, b []byte) {
 	}
 	w.mu.Lock()
 	defer w.mu.Unlock()
+	if w.keepIn {
+		w.inUnits = append(w.inUnits, unit{side: side, data: append([]byte{}, b...)})
+	}
 	if isRTCP(b) {
 		w.rtcpSeen++
 		if w.in.TamperRTCP && w.rtcpSeen%2 == 0 {
@@ -1054,6 +1059,7 @@ func runE2E(c *corr.Ctx) {
 			}
 		}
 	}
+	runMulti(c)
 	runAdmission(c)
 	runClientSide(c)
 }
@@ -1062,6 +1068,8 @@ func replayE2E(c *corr.Ctx, in *Input) {
 	switch in.Kind {
 	case "e2e":
 		runSession(c, in.E2E, "replay")
+	case "multi":
+		runMultiCase(c, in.Multi, "replay")
 	case "setup":
 		replaySetup(c, in)
 	case "client":
